@@ -639,7 +639,7 @@ func effectLines(c *core.Ctx, effs []loopEffect) []string {
 }
 
 func checkC10(c *core.Ctx, l *core.Ledger) {
-	l.Explanation = "Static clauses of C10: (MAPORD) every range over a map in non-generated code of compile, gen, internal/plugin and the command is classified from an SSA effect analysis of its body with interprocedural mod-summaries: A = elements collected into a slice that is sorted before every later use; B = only commutative effects on outer state (map inserts keyed by the iteration key, counters, flags, error accumulation); C = no effect except returning an error; D = one file-system effect per key on a path derived from the key. Any other effect on state that outlives the iteration (namespace/import-alias/mangler counters, appends that are never sorted, mutation of shared specs, first-match returns) is order-sensitive and reported. (WALK) Module.Walk exposes map order to its callbacks by contract; each callback passed to it is classified by the same rules. (SOURCES) no wall-clock, random, pid or pointer-formatting source is reachable from the generation entry points. (TMPL-RANGE) templates range over maps only where text/template sorts the keys. NOT decided: byte equality across runs as such; determinism of plugin processes; RootServices/RootModules order (treated as sets, as the property allows arbitrary numbering)."
+	l.Explanation = "Static clauses of C10: (MAPORD) every range over a map in non-generated code of compile, gen, internal/plugin and the command is classified from an SSA effect analysis of its body with interprocedural mod-summaries: A = elements collected into a slice that is sorted before every later use; B = only commutative effects on outer state (map inserts keyed by the iteration key, counters, flags, error accumulation); C = no effect except returning an error; D = one file-system effect per key on a path derived from the key. Any other effect on state that outlives the iteration (namespace/import-alias/mangler counters, appends that are never sorted, mutation of shared specs, first-match returns) is order-sensitive and reported. (WALK) Module.Walk exposes map order to its callbacks by contract; each callback passed to it is classified by the same rules. (SELF-CONTAINED) the per-module callback of gen.Generate, which runs in map order, registers the whole include tree of its own module with the request builder before it adds services, so the failing lookup of an ancestor's module id never depends on what earlier iterations registered. (SOURCES) no wall-clock, random, pid or pointer-formatting source is reachable from the generation entry points. (TMPL-RANGE) templates range over maps only where text/template sorts the keys. NOT decided: byte equality across runs as such; determinism of plugin processes; RootServices/RootModules order (treated as sets, as the property allows arbitrary numbering)."
 	l.RuleText = "one obligation per map-range site / Walk callback / nondeterminism source; non-trivial = the body has at least one effect on outer state"
 	l.Assumptions = []string{"text/template visits map keys in sorted order (documented behaviour)", "module and service id numbering is arbitrary by the property statement", "mod-summaries treat stdlib packages listed as pure as having no relevant side effects"}
 	rels := []string{"compile", "gen", "internal/plugin", ""}
@@ -813,6 +813,9 @@ func checkWalkCallbacks(c *core.Ctx, l *core.Ledger) {
 		}
 	}
 	l.Floor("WALK", 3)
+	// the generate callback reads the builder's module table (a service needs the ids of its ancestors' modules):
+	// that read is order-independent only if each call registers its own include tree first
+	checkModulesFirst(c, l, "SELF-CONTAINED", "generateModule.modules-first")
 }
 
 // checkNondetSources: nothing reachable from the generation entry points
